@@ -14,7 +14,7 @@ import (
 func init() {
 	register(&PropSpec{
 		ID:       "C13",
-		Patterns: []string{"./pkg/mtls", "./pkg/mtls/extensions/sni", "./pkg/mtls/crypto/tls", "./pkg/server", "./pkg/upstream/cluster", "./istio/istio1106/xds/conv"},
+		Patterns: []string{"./pkg/mtls", "./pkg/mtls/extensions/sni", "./pkg/mtls/crypto/tls", "./pkg/server", "./pkg/upstream/cluster", "./istio/istio1106/xds/conv", "./pkg/stream/http", "./pkg/stream/http2", "./pkg/stream/xprotocol"},
 		Explanation: "(R1) decision table read off the CFG of defaultConfigHooks.GetClientAuth over (RequireClientCert, VerifyClient): (T,T)->RequireAndVerifyClientCert, (F,T)->VerifyClientCertIfGiven, (T,F)->RequestClientCert, (F,F)->NoClientCert, and SetServerConfig stores exactly that result into ClientAuth on every path that publishes a server context; " +
 			"(R2) verification is never silently off: every store of true into tls.Config.InsecureSkipVerify (outside the forked crypto) is control-dependent on cfg.InsecureSkip or on a non-nil custom VerifyPeerCertificate installed in the same function; " +
 			"(R3) CA provenance: both RootCAs and ClientCAs receive the pool returned by hooks.GetX509Pool(secret.Validation) and its error is returned; (R4) plaintext only via the inspector: in serverContextManager.Conn every return of something that is not a *TLSConn is control-dependent on not-a-TCP-conn, TLS disabled, or inspector mode with a first byte other than 0x16; " +
